@@ -43,7 +43,7 @@ var trustedBase = []string{
 
 func (r *Report) finish() (int, error) {
 	o := r.Opts
-	known := loadKnownFindings(filepath.Join(verifDir, "KNOWN_FINDINGS.txt"))
+	known := r.L.Known
 	var evs []oblEvidence
 	nObl, nDis := 0, 0
 	var violations []string
@@ -283,6 +283,19 @@ func rest(f []string) string {
 		return strings.TrimSpace(f[1])
 	}
 	return ""
+}
+
+func (ks *knownSet) matchAny(obl string) *knownFinding {
+	if ks == nil {
+		return nil
+	}
+	for i := range ks.list {
+		k := &ks.list[i]
+		if k.Kind == "finding" && k.Obligation == obl {
+			return k
+		}
+	}
+	return nil
 }
 
 func (ks *knownSet) match(prop, obl string) *knownFinding {
